@@ -50,12 +50,17 @@ var c16Scens = []c16Scen{
 	{Label: "page-slot-content-for-layout-in-loop", Files: map[string]string{
 		"p.vuego":            "---\nlayout: main\n---\n<p data-m=\"w0\">page</p><template #side><b v-once data-m=\"m1\">s1</b><i data-m=\"w1\"></i><b v-once data-m=\"m2\">s2</b></template>",
 		"layouts/main.vuego": `<main><aside v-for="i in items"><slot name="side"></slot></aside></main>`}, WantFile: map[string]int{"m1": 1, "m2": 1, "w0": 0, "w1": 3}},
+	{Label: "looped-marked-element-reached-first-with-nothing-to-loop-over", Files: map[string]string{"p.vuego": `<div v-for="r in rows"><b v-for="x in r" v-once data-m="m1">{{ x }}</b><i data-m="w1"></i></div>`}, WantOther: map[string]int{"m1": 1, "w1": 3}},
+	{Label: "looped-marked-element-whose-items-are-all-filtered-the-first-time", Files: map[string]string{"p.vuego": `<div v-for="i in items"><template v-for="x in items"><b v-if="x < i" v-once data-m="m1">{{ x }}</b></template><i data-m="w1"></i></div>`}, WantOther: map[string]int{"m1": 1, "w1": 3}},
+	{Label: "looped-marked-element-in-component-first-included-with-empty-list", Files: map[string]string{
+		"p.vuego": `<template include="c.vuego" :r="empty"></template><template include="c.vuego" :r="items"></template><template include="c.vuego" :r="items"></template>`,
+		"c.vuego": `<section><b v-for="x in r" v-once data-m="m1">{{ x }}</b><i data-m="w1"></i></section>`}, WantOther: map[string]int{"m1": 1, "w1": 3}},
 }
 
 func c16NScen() int { return len(c16Scens) }
 
 func c16ScenData() map[string]any {
-	return map[string]any{"cT": true, "cF": false, "items": []any{1, 2, 3}, "empty": []any{}}
+	return map[string]any{"cT": true, "cF": false, "items": []any{1, 2, 3}, "empty": []any{}, "rows": []any{[]any{}, []any{1, 2}, []any{3}}}
 }
 
 func (p *c16) execScen(ctx core.Ctx, c c16Case) core.Obs {
